@@ -153,6 +153,8 @@ class Ctx(object):
                 sub = Ctx(self.pid, self.tier, self.seed)
                 sub._prog, sub._src_hash, sub._mir = self._prog, self._src_hash, self._mir
                 t0 = time.time()
+                import pete as _p
+                cov0 = set(_p.COVER)
                 try:
                     fn(sub)
                 except Exception as ex:
@@ -160,12 +162,14 @@ class Ctx(object):
                     sub.fail_closed.append(('CHECKER-ERROR:%s' % name, 'internal', 'shared rule %s crashed: %r' % (name, ex)))
                 rec = {'rules': sub.rules, 'violations': [list(v[:3]) + [v[3]] for v in sub.violations], 'fail_closed': [list(f) for f in sub.fail_closed],
                        'obligations': sub.obligations, 'discharged': sub.discharged, 'evaluations': sub.evaluations, 'samples': sub.samples[:6],
-                       'assumptions': sub.assumptions, 'not_decided': sub.not_decided, 'wall_s': time.time() - t0}
+                       'assumptions': sub.assumptions, 'not_decided': sub.not_decided, 'wall_s': time.time() - t0, 'functions_evaluated': sorted(_p.COVER - cov0)}
                 os.makedirs(d, exist_ok=True)
                 tmp = path + '.tmp%d' % os.getpid()
                 with open(tmp, 'w', encoding='utf-8') as fh:
                     json.dump(rec, fh, ensure_ascii=False, default=str)
                 os.rename(tmp, path)
+        import pete as _p2
+        _p2.COVER.update(rec.get('functions_evaluated', []))
         for k, r in rec['rules'].items():
             cur = self.rules.setdefault(k, {'instances': 0, 'points': 0, 'what': r.get('what', '')})
             cur['instances'] += r['instances']
@@ -187,6 +191,16 @@ class Ctx(object):
         self.notes.append('shared rule %s (%d obligations, computed in %.1fs for source hash %s)' % (name, rec['obligations'], rec['wall_s'], self._src_hash))
 
     # ---- finish
+    def _fn_cover(self):
+        """repository functions whose bodies the evaluator actually walked for this property (directly or through a shared bundle)"""
+        import pete as _p
+        try:
+            allf = set(f.qname for f in self.prog.all_fns)
+        except Exception:
+            allf = set()
+        cov = sorted(_p.COVER)
+        return {'count': len(cov), 'repo_functions': len(allf), 'names': cov}
+
     def finish(self, explanation, level='other'):
         known = load_known()
         wall = time.time() - self.t0
@@ -244,6 +258,7 @@ class Ctx(object):
                                  'hand-written oracles under /verif/oracles'],
                 'not_decided': sorted(set(self.not_decided)),
                 'known_findings_reported': n_known,
+                'functions_evaluated': self._fn_cover(),
                 'src_hash': self._src_hash,
             },
             'assumptions': sorted(set(self.assumptions)),
